@@ -89,6 +89,14 @@ def run(tier):
                 if e < 128 and not sp.startswith("-"): valid.append(cid)
     for sp in ["9" * n_ for n_ in (38, 39, 40, 60, 300)] + ["1" + "0" * n_ for n_ in (37, 38, 39, 40)] + ["0x" + "f" * n_ for n_ in (31, 32, 33, 64)] + ["0b" + "1" * n_ for n_ in (127, 128, 129, 256)]:
         cases.append(("bi%d" % kb, ("const K: u128 = %s;\n" % sp).encode(), "boundary-integers")); kb += 1
+    # every spelling of integer literals, digit-less prefixes included (invalid lexemes must be rejected)
+    for sp in ["0b", "0x", "0b_", "0x_", "0bu8", "0xu8", "0b2", "0xg", "0b1010_1010", "0x_FF", "1_000", "0_", "00", "0b0", "0x0", "1__0u8", "0b1u128", "0xFFi16", "12ab", "0bar"]:
+        cases.append(("bi%d" % kb, ("fn main(){ var x = %s; var y = %s; }\n" % (sp, sp)).encode(), "literal-spellings")); kb += 1
+    # casts as operands of every binary operator (well-formed: must be accepted)
+    for op_ in ("*", "/", "%", "+", "-"):
+        for tmpl in ("y %s x as i64", "x as i64 %s y", "y %s x as i64 as i32", "y %s (x as i64)", "-x as i64 %s y"):
+            cid = "co%d" % kb; kb += 1; valid.append(cid)
+            cases.append((cid, ("fn f(x: i32, y: i64)\n{\n\tvar w: i64 = %s;\n}\n" % (tmpl % op_)).encode(), "cast-operands"))
     # one token repeated around every counter width (8-bit depth counters, 16-bit lengths)
     for tok in ("&", "(", "[", "{", "-", "!", "|", "&&", "[]", ".x", "[0]", " as u8", "+1", "x,", ";", "&[]", "&[1]", "pub ", "extern "):
         for cnt in (126, 127, 128, 129, 254, 255, 256, 257, 300, 1000, 65535, 65536, 65537):
